@@ -18,7 +18,7 @@ static META: [PropertyMeta; 8] = [
         id: "C01",
         level: "exploration",
         engine: "memo-sim",
-        rule: "a run = 1-3 worlds (OS threads with seeded stack sizes, released one at a time) and 3-6 cooperative tasks whose stages are single public API calls (T::ty, IDLBuilder::new/default, arg, serialize/serialize_to_vec, Encode!/encode_one, IDLDeserialize::new_with_config, get_value, done, Decode!/decode_one, try_from_candid_type, TypeContainer::add, subtype on knot types, env_clear) over a corpus of ~400 concrete Rust types (cross product of element/key/value types under every container, derived, generic, renamed, recursive and mutually recursive types), interleaved by a seeded scheduler (sequential, uniform, bursty, alternating) with injected history events: env_clear at arbitrary instants, arguments that fail mid-value, decodes that fail mid-value (truncated message, quota abort, wrong type), abandoned builders/decoders, writer faults. Every task is also executed alone on a fresh thread as the reference. distinct = distinct (fingerprint of the thread memo before the call over 12 tracked recursive/derived types, API call kind, corpus type). non-trivial = at least two tasks shared a thread.",
+        rule: "a run = 1-3 worlds (OS threads with seeded stack sizes, released one at a time) and 3-6 cooperative tasks whose stages are single public API calls (T::ty, IDLBuilder::new/default, arg, serialize/serialize_to_vec, Encode!/encode_one, IDLDeserialize::new_with_config, get_value, done, Decode!/decode_one, try_from_candid_type, TypeContainer::add, subtype on knot types, env_clear) over a corpus of ~530 concrete Rust types (cross product of element/key/value types under every container, derived, generic, renamed, recursive and mutually recursive types), interleaved by a seeded scheduler (sequential, uniform, bursty, alternating) with injected history events: env_clear at arbitrary instants, arguments that fail mid-value, decodes that fail mid-value (truncated message, quota abort, wrong type), abandoned builders/decoders, writer faults. Every task is also executed alone on a fresh thread as the reference. distinct = distinct (fingerprint of the thread memo before the call over 12 tracked recursive/derived types, API call kind, corpus type). non-trivial = at least two tasks shared a thread.",
         assumptions: &[
             "'whatever ran before' = earlier completed or failed API calls of any task on the thread, and env_clear (public); re-entrancy from inside user Deserialize impls is not generated",
             "bytes are not required to be equal across different histories (the source documents that memo order may change the table layout), only outcomes and decoded values",
